@@ -53,6 +53,14 @@ def gen_nests(ck: Check):
 
     for _ in range(100 if ck.quick else 1000):
         yield "tree", tree(0)
+    # an error dropped INSIDE a loop (tolerant modes, small context_depth_limit), then more loops: the later loops must
+    # be counted on their own
+    X = ("text", "x")
+    for n, m, k in ((2, 2, 3), (2, 3, 5), (3, 1, 5), (2, 2, 12)):
+        yield "leak", [("for", n, [("for", m, [X])]), ("for", k, [X])]
+        yield "leak", [("for", n, [("tablerow", m, [X])]), ("for", k, [X])]
+        yield "leak", [("for", n, [("include", [("for", m, [X])])]), ("for", k, [("for", 1, [X])])]
+        yield "leak", [("include", [("for", n, [("for", m, [X])]), ("for", k, [X])]), ("for", k, [X])]
 
 
 def shape_of(nest):
@@ -108,12 +116,33 @@ def judge(nest, limit, base, s, a):
     return None
 
 
+def judge_tolerant(nest, lim, s, a, same_without_loop_limit):
+    """WARN / LAX oracle, independent of the model: errors are dropped per top-level node, yet (i) no leaf may have run
+    while the product of its enclosing lengths exceeded the limit, (ii) a limit that no reached nest exceeds changes nothing."""
+    if s != a:
+        return f"c06-{lim.mode}-sync-async-differ", f"sync {s[:2]} but async {a[:2]}"
+    if s[0] != "out":
+        return None
+    allowed = L.leaf_count_within(nest, lim.loop)
+    if s[1].count("x") > allowed:
+        c = culprit(nest, lim.loop)
+        sig = f"c06-{c}-length-not-carried" if c else f"c06-{lim.mode}-leaf-over-limit:" + shape_of(nest)[:100]
+        return sig, (f"in {lim.mode} mode {s[1].count('x')} leaves were executed but only {allowed} leaf executions have "
+                     f"enclosing lengths multiplying to <= {lim.loop}")
+    if same_without_loop_limit is not None and L.max_loop_product(nest) <= lim.loop and s[:2] != same_without_loop_limit[:2]:
+        return (f"c06-{lim.mode}-false-alarm-after-dropped-error",
+                f"no reached nest multiplies to more than {lim.loop}, yet the loop limit changes the {lim.mode}-mode output "
+                f"({s[1].count('x')} leaves instead of {same_without_loop_limit[1].count('x') if same_without_loop_limit[0] == 'out' else same_without_loop_limit})")
+    return None
+
+
 def run(ck: Check) -> None:
     ck.rule = (
         "every chain of for / tablerow / include-with-array / render-for (lengths 0,1,2,3,5,12) and include / render / macro call "
         "around one leaf, exhaustively to depth 2 (quick) or 3 (thorough), every shape one level deeper with sampled lengths, plus seeded "
         "random trees with several leaves; each nest rendered (sync and async) without a limit and under every loop_iteration_limit in "
-        "{1,2,5,6,11,24,60,200}; leaf executions counted from the output. Non-trivial = at least one repeating construct of length >= 2; "
+        "{1,2,5,6,11,24,60,200}; leaf executions counted from the output; the chains to depth 2, the trees and a sample of the rest "
+        "also in WARN and LAX mode (limits 2, 5, 24; with context_depth_limit 5 / 6 so that an error is dropped inside a loop). Non-trivial = at least one repeating construct of length >= 2; "
         "distinct = distinct (nest, limit)."
     )
     ck.exhaustive = True
@@ -123,7 +152,7 @@ def run(ck: Check) -> None:
         "modelled not verified: range/array length evaluation, DictLoader, the stack discipline of Python context managers",
     ]
     ck.assumptions = [
-        "Mode.STRICT; only loop_iteration_limit configured (>= 1); lengths are static (ranges and arrays of known size); no break/continue",
+        "loop_iteration_limit >= 1 (plus context_depth_limit in the tolerant-mode runs); lengths are static (ranges and arrays of known size); no break/continue",
         "leaf executions are observed as the number of 'x' in the output",
     ]
     ck.proof()
@@ -155,6 +184,29 @@ def run(ck: Check) -> None:
                              {"main": nest, "limits": lim.as_dict(), "template": printed[0], "partials": printed[1], "sync": s, "async": a})
                 continue
             sw.add(lim, [], s, explained=v is not None)
+        # WARN / LAX: errors are dropped per top-level node; with a small context_depth_limit too (an error inside a loop)
+        if base[0] != "out" or not (label in ("chain1", "chain2", "tree", "leak") or ck.rng.random() < 0.12):
+            continue
+        for mode in ("lax", "warn"):
+            configs = [L.Limits(loop=limit, mode=mode) for limit in ((2, 24) if label == "chain2" else (2, 5, 24))]
+            if label in ("tree", "leak") or ck.rng.random() < 0.25:
+                configs += [L.Limits(loop=limit, depth=d, mode=mode) for limit in ((5, 6, 15, 24) if label == "leak" else (5, 24)) for d in (5, 6)]
+            for lim in configs:
+                s, _ = L.run_impl(nest, lim, False, printed)
+                a, _ = L.run_impl(nest, lim, True, printed)
+                ref = None
+                if lim.depth != L.DEFAULT_DEPTH:
+                    ref, _ = L.run_impl(nest, lim.replace(loop=None), False, printed)
+                ck.note_case((nest, lim.key()), nontrivial=nontriv)
+                ck.count(f"{mode}.{'escaped' if s[0] == 'err' else 'completed'}")
+                v = judge_tolerant(nest, lim, s, a, ref)
+                if v is not None:
+                    ck.violation("impl-violation", v[0], f"{printed[0]!r} partials {printed[1]!r} limits {lim.as_dict()}: {v[1]}",
+                                 {"main": nest, "limits": lim.as_dict(), "template": printed[0], "partials": printed[1],
+                                  "sync": s, "async": a, "kind": "tolerant"})
+                if s[0] == "err" and s[1].startswith("other:"):
+                    continue
+                sw.add(lim, [], s, explained=v is not None)
     g = sw.groups[len(sw.groups) // 3]
     ck.sample({"template": g[1][0], "partials": g[1][1], "limit": g[2][3][0].loop, "observed": g[2][3][2][:2]})
     for nest, printed, lim, sizes, s in sw.mismatches(ck, "c06", chunk=120)[:3]:
@@ -177,6 +229,15 @@ def replay(data) -> int:
     base, _ = L.run_impl(nest, L.Limits(), False, printed)
     s, _ = L.run_impl(nest, lim, False, printed)
     a, _ = L.run_impl(nest, lim, True, printed)
+    if case.get("kind") == "tolerant":
+        ref = None
+        if lim.depth != L.DEFAULT_DEPTH:
+            ref, _ = L.run_impl(nest, lim.replace(loop=None), False, printed)
+        print("template:", printed[0], "partials:", printed[1], "limits:", lim.as_dict())
+        print("sync :", s[:2], "async:", a[:2], "without the loop limit:", ref[:2] if ref else None)
+        v = judge_tolerant(nest, lim, s, a, ref)
+        print(("VIOLATION reproduced: " + v[1] if v else "not reproduced") + f" property={data['property']}")
+        return 1 if v else 0
     print("template:", printed[0], "partials:", printed[1], "loop_iteration_limit:", lim.loop)
     print("sync :", s[:2] if s[0] == "err" else ("out", f"{s[1].count('x')} leaf executions"))
     print("async:", a[:2] if a[0] == "err" else ("out", f"{a[1].count('x')} leaf executions"))
